@@ -1400,7 +1400,7 @@ class Interp:
         if op in ("Eq", "NotEq") and isinstance(l, Obj) and l.cls is not None and l is not r:
             eqm = l.cls.find_method("__eq__")
             pol = self.opts.get("inline", lambda fi, node: False)
-            if eqm is not None and pol(eqm, node):
+            if eqm is not None and (pol(eqm, node) or getattr(eqm, "synthetic", False)):
                 res = self.run_function(Fn(eqm, l), [r], {}, node)
                 t = self.truth_of(res)
                 if t is not None:
@@ -2108,12 +2108,25 @@ class Interp:
                     self.emit("mutate", node, base=base, how="extend", value=args[0])
                     return Const(None)
             if meth == "remove" and len(args) == 1:
+                # list.remove deletes the first item that is the argument or compares equal to it (__eq__ of
+                # repository classes is honoured where it is analysable)
+                def _eq(x, y):
+                    if x is y:
+                        return True
+                    if isinstance(x, Obj) and x.cls is not None and x.cls.find_method("__eq__") is not None:
+                        return self.truth_of(self.compare("Eq", x, y, node))
+                    return same_value(x, y)
+                verdicts = []
                 for i, x in enumerate(base.items):
-                    if same_value(x, args[0]) is True:
+                    r = _eq(x, args[0])
+                    verdicts.append(r)
+                    if r is True:
                         del base.items[i]
-                        self.emit("mutate", node, base=base, how="remove", value=args[0])
+                        self.emit("mutate", node, base=base, how="remove", value=args[0], removed=x)
                         return Const(None)
-                if all(same_value(x, args[0]) is False for x in base.items):
+                    if r is None:
+                        break
+                if verdicts and all(v is False for v in verdicts) and len(verdicts) == len(base.items):
                     self.emit("raise", node, value=Term("exc", "ValueError"))
                     raise _Raise(Term("exc", "ValueError"), node)
             if meth == "copy" and not args:
